@@ -166,10 +166,20 @@ def gen(rng, tier):
         if rng.random() < 0.25:
             steps.insert(0, "w%d" % rng.choice([1, 2, 3, 5, 11, 64]))
         cases.append("sse " + " ".join(steps))
+    # a full server over loop-back, sender threads; with h the client closes its sending side after the request and keeps
+    # reading: the stream must go on while a sender is connected
+    cases += ["stress 2 40", "stress 2 40 h", "stress 1 30 h"]
+    # the body converted to bytes while a sender (a clone) is still connected and sends later
+    # (at most three short events are in the queue at any time: the conversion reads through read_to_end, whose probing
+    # reads offer as little as 32 bytes, and an event that does not fit the offered buffer fails the whole conversion with
+    # WriteZero on the unchanged tree -- observed with "conv 1 5"; that is a limitation of this side API, outside the
+    # statement of C11, which is about delivery to the client; see DESIGN.md section 10)
+    cases += ["conv 0 0", "conv 3 0", "conv 2 2", "conv 0 3", "conv 1 2"]
     if tier == "thorough":
         for nt in (1, 2, 3, 4):
             for _ in range(3):
                 cases.append("stress %d 200" % nt)
+                cases.append("stress %d 200 h" % nt)
     return cases
 
 
